@@ -28,5 +28,11 @@ let handle = function
     (match join_byte_intervals (z_of_int 1) align (nat_of_int 900) parts with
      | Err e -> s1 ^ " || err " ^ err_name e
      | Ok j -> s1 ^ " || " ^ dump_ival j)
+  | "join" ->
+    let parts = listn read_ival in
+    let align = listn (fun () -> let id = nn () in let a = next_z () in (id, a)) in
+    (match join_byte_intervals (z_of_int 1) align (nat_of_int 900) parts with
+     | Err e -> "err " ^ err_name e
+     | Ok j -> dump_ival j)
   | c -> failwith ("unknown command " ^ c)
 let () = main_loop handle
